@@ -39,6 +39,7 @@ func (k *c01) RunCase(c *core.Ctx, i int) {
 	o.Perf = r.Intn(4) == 0
 	o.SelfBook = r.Intn(4) == 0
 	o.EquityEquity = r.Intn(2) == 0
+	o.Depth1 = r.Intn(4) == 0
 	if o.Prices && r.Intn(2) == 0 {
 		o.Small = true
 	}
